@@ -1,28 +1,33 @@
 import JSight.Props.C10_Inters
 import JSight.Props.C01_Project
 /-!
-C10 (catalog construction), third part — the hypothesis `hpaths` of `Props/C10_Inters.lean` (the Path stage gives the
-same verdict in both orders) holds for every forest whose directives have pairwise distinct identities (`BDir.id`),
-and the forests of the composed model are such forests.
+C10 (catalog construction), third part — the Path stage (`pathsForest`, the model of `collectPaths`), and with it the
+hypothesis `hpaths` of `Props/C10_Inters.lean` (the stage gives the same verdict in both orders).
 
-* `paths_swap_distinct`: under `(idsF (pre ++ a :: b :: post)).Nodup` the Path stage (`pathsForest [] · none`)
-  accepts `pre ++ a :: b :: post` iff it accepts `pre ++ b :: a :: post` — for ARBITRARY trees `a`, `b`.
-  Why: the only failure that depends on the state `last` is `.notUnique`, raised when `last` is the identity of the
-  parent of a Path directive.  A Path directive of the top level fails with `.parentNotFound` whatever the state; the
-  parent of any other Path directive is a node of the same top-level block.  So a block walked from two states
-  neither of which is an identity of the block behaves alike (`pathsTree_agree`: both runs fail, or both succeed —
-  with the states unchanged, or with one and the same new state), and the state a block leaves is the one it got or
-  an identity of the block (`pathsTree_from`).  With disjoint identities two neighbouring blocks therefore commute
-  as far as the verdict goes (`two_blocks`; the STATES left may differ — the last block with a Path directive wins —
-  but both are fresh for what follows).
-* `swap_inter_verdict_distinct`, `swap_inter_distinct`: `C10I.swap_inter_verdict_partial'` / `swap_inter_partial'`
-  with `Nodup` in place of `hpaths`.
+Since F76 the stage threads `seen : List Nat`, the identities (`BDir.id`) of ALL contexts that already have a Path
+directive (before: `Option Nat`, the parent of the last Path directive met).  That makes the stage a set computation:
+
+* `pathsTree_spec` / `pathsForest_spec` / `pathsForest_isOk`: from the state `l` a forest is accepted iff every Path
+  directive outside the MACRO subtrees passes the checks that do not read the state (`okF`: no annotation, a body, a
+  path, well-formed path parameters, a parent) and the identities of the parents of these Path directives (`parF`)
+  are pairwise different and not in `l` (`Fresh`); the state it leaves is `parF anc f ++ l`.
+* `paths_swap` (`paths_swap_from`): the verdict of the stage is the same for `pre ++ a :: b :: post` and
+  `pre ++ b :: a :: post` — for ARBITRARY trees, whatever their identities (`okF` is a conjunction and `Fresh` is
+  invariant under permutation).  `paths_swap_distinct` — the former main result, under
+  `(idsF (pre ++ a :: b :: post)).Nodup`, proved through `Fresh`/`From`/`Agree` on the one-element state — is kept as
+  a corollary.
+* `swap_inter_verdict'`, `swap_inter'`: `C10I.swap_inter_verdict_partial'` / `swap_inter_partial'` WITHOUT `hpaths`;
+  `swap_inter_verdict_distinct`, `swap_inter_distinct`: the same with `Nodup` (kept).
 * `decoForest_ids` (`decoForestF_ids`): the decoration of the composed model numbers the directives in pre-order,
   `idsF (decoForest d done f n).1 = List.range' n (sizeF f)`; hence `decoForest_nodup`, and
   `swap_inter_verdict_deco` / `swap_inter_deco` (`…decoF`): for the forests `Project.process` / `processFS` hand to
   `compile` the exchange of two interaction blocks needs no hypothesis on the Path stage.
-* examples: a forest with distinct identities and a Path directive in each exchanged block; the counterexample
-  `C10I.path_stage_order_matters` has two directives of one identity, `Nodup` fails there.
+* `two_paths_refused`, `two_paths_not_compiled` (F76, the repaired behaviour): a directive outside the MACRO subtrees
+  with two Path children is never accepted, whatever stands between the two; `accepted_parents_nodup` is the general
+  form.
+* examples: a forest with distinct identities and a Path directive in each exchanged block; the shape of the former
+  counterexample `C10I.path_stage_order_matters` (two directives of one identity) is rejected in both orders;
+  `URL /a/{x}/{y}/{z}` with `Path`, `GET [Path, 200]`, `Path` is refused at the second URL-level Path directive.
 -/
 namespace JSight.C10P
 open JSight JSight.Build JSight.Gen JSight.BuildPerm
@@ -46,273 +51,233 @@ def hid : List BDir → List Nat
   | [] => []
   | p :: _ => [p.id]
 
-/-- the state `l` of the Path stage is not an identity of `S` -/
-def Fresh (S : List Nat) (l : Option Nat) : Prop := ∀ j, l = some j → j ∉ S
+/-! ### what the Path stage computes -/
 
-/-- the state `r` is `l` or an identity of `S` -/
-def From (S : List Nat) (l r : Option Nat) : Prop := r = l ∨ ∃ j, r = some j ∧ j ∈ S
+/-- the checks of a Path directive that do not read the state `seen` -/
+def pathOwn (anc : List BDir) (d : BDir) : Bool :=
+  d.annot.isEmpty && d.body.isSome &&
+    (match pathChain (d :: anc) with
+     | .error _ => false
+     | .ok path => (checkedParams d path).isOk) && !anc.isEmpty
 
-/-- two runs from the states `l`, `l'`: both fail, or both succeed — with the states unchanged or with the same state -/
-def Agree (l l' : Option Nat) (x y : R (Option Nat)) : Prop :=
-  (∃ e e', x = .error e ∧ y = .error e') ∨
-  (∃ r r', x = .ok r ∧ y = .ok r' ∧ ((r = l ∧ r' = l') ∨ r = r'))
+mutual
+  /-- every Path directive outside the MACRO subtrees passes its own checks -/
+  def okT (anc : List BDir) : BTree → Bool
+    | .node d kids =>
+      if d.kind == .Macro then true
+      else if d.kind == .Path then pathOwn anc d && okF (d :: anc) kids
+      else okF (d :: anc) kids
+  def okF (anc : List BDir) : List BTree → Bool
+    | [] => true
+    | t :: r => okT anc t && okF anc r
+end
 
-theorem pathsTree_macro (anc : List BDir) (d : BDir) (kids : List BTree) (l : Option Nat) (hk : d.kind = .Macro) :
+mutual
+  /-- the identities of the parents of the Path directives outside the MACRO subtrees, the one met last first (the
+  order in which the stage conses them onto `seen`) -/
+  def parT (anc : List BDir) : BTree → List Nat
+    | .node d kids =>
+      if d.kind == .Macro then []
+      else if d.kind == .Path then parF (d :: anc) kids ++ hid anc
+      else parF (d :: anc) kids
+  def parF (anc : List BDir) : List BTree → List Nat
+    | [] => []
+    | t :: r => parF anc r ++ parT anc t
+end
+
+/-- `new` has no repetition and nothing of `new` is in `seen` -/
+def Fresh (new seen : List Nat) : Prop := new.Nodup ∧ ∀ j ∈ new, j ∉ seen
+
+theorem Fresh.nil (seen : List Nat) : Fresh [] seen := ⟨List.nodup_nil, fun _ h => by cases h⟩
+
+theorem fresh_single {j : Nat} {seen : List Nat} : Fresh [j] seen ↔ j ∉ seen := by
+  constructor
+  · intro h; exact h.2 j (by simp)
+  · intro h; refine ⟨by simp, fun i hi => ?_⟩
+    rw [List.mem_singleton] at hi; rw [hi]; exact h
+
+theorem fresh_append {A B seen : List Nat} : Fresh (A ++ B) seen ↔ Fresh B seen ∧ Fresh A (B ++ seen) := by
+  unfold Fresh
+  rw [List.nodup_append]
+  constructor
+  · rintro ⟨⟨hA, hB, hAB⟩, hs⟩
+    refine ⟨⟨hB, fun j hj => hs j (List.mem_append_right _ hj)⟩, hA, fun j hj hm => ?_⟩
+    rcases List.mem_append.1 hm with hm | hm
+    · exact hAB j hj j hm rfl
+    · exact hs j (List.mem_append_left _ hj) hm
+  · rintro ⟨⟨hB, hBs⟩, hA, hAs⟩
+    refine ⟨⟨hA, hB, fun a ha b hb hab => hAs a ha (List.mem_append_left _ (hab ▸ hb))⟩, fun j hj => ?_⟩
+    rcases List.mem_append.1 hj with hj | hj
+    · exact fun hm => hAs j hj (List.mem_append_right _ hm)
+    · exact hBs j hj
+
+theorem Fresh.perm {A B seen : List Nat} (h : A.Perm B) : Fresh A seen ↔ Fresh B seen := by
+  unfold Fresh
+  rw [h.nodup_iff]
+  constructor
+  · exact fun ⟨h1, h2⟩ => ⟨h1, fun j hj => h2 j (h.mem_iff.2 hj)⟩
+  · exact fun ⟨h1, h2⟩ => ⟨h1, fun j hj => h2 j (h.mem_iff.1 hj)⟩
+
+theorem pathsTree_macro (anc : List BDir) (d : BDir) (kids : List BTree) (l : List Nat) (hk : d.kind = .Macro) :
     pathsTree anc (.node d kids) l = .ok l := by
   unfold pathsTree
   simp [hk]
 
-theorem pathsTree_other (anc : List BDir) (d : BDir) (kids : List BTree) (l : Option Nat)
+theorem pathsTree_other (anc : List BDir) (d : BDir) (kids : List BTree) (l : List Nat)
     (hm : d.kind ≠ .Macro) (hp : d.kind ≠ .Path) :
     pathsTree anc (.node d kids) l = pathsForest (d :: anc) kids l := by
   unfold pathsTree
   simp [hm, hp]
 
-/-- a Path directive: a failure that does not depend on the state, or the comparison with the parent's identity -/
+/-- a Path directive: a failure that does not depend on the state, or the test whether the parent's identity is
+among the contexts seen -/
 theorem pathsTree_path (anc : List BDir) (d : BDir) (kids : List BTree) (hk : d.kind = .Path) :
-    (∃ e, ∀ l, pathsTree anc (.node d kids) l = .error e) ∨
-    (∃ p rest, anc = p :: rest ∧ ∀ l, pathsTree anc (.node d kids) l =
-      if l = some p.id then fail d .notUnique else pathsForest (d :: anc) kids (some p.id)) := by
+    (pathOwn anc d = false ∧ ∃ e, ∀ l, pathsTree anc (.node d kids) l = .error e) ∨
+    (pathOwn anc d = true ∧ ∃ p rest, anc = p :: rest ∧ ∀ l, pathsTree anc (.node d kids) l =
+      if p.id ∈ l then fail d .notUnique else pathsForest (d :: anc) kids (p.id :: l)) := by
   have hm : (d.kind == Kind.Macro) = false := by rw [hk]; rfl
   have hp : (d.kind == Kind.Path) = true := by rw [hk]; rfl
-  unfold pathsTree
+  unfold pathsTree pathOwn
   simp only [hm, hp, Bool.false_eq_true, if_false, if_true]
   by_cases h1 : (!d.annot.isEmpty) = true
-  · exact Or.inl ⟨_, fun l => by simp only [h1, if_true]; rfl⟩
+  · refine Or.inl ⟨?_, _, fun l => by simp only [h1, if_true]; rfl⟩
+    simp only [Bool.not_eq_true'] at h1
+    simp [h1]
   by_cases h2 : d.body.isNone = true
-  · exact Or.inl ⟨_, fun l => by simp only [h1, h2, if_true]; rfl⟩
-  simp only [h1, h2]
+  · refine Or.inl ⟨?_, _, fun l => by simp only [h1, h2, if_true]; rfl⟩
+    have : d.body.isSome = false := by cases hb : d.body <;> simp_all
+    simp [this]
+  have h1' : d.annot.isEmpty = true := by simpa using h1
+  have h2' : d.body.isSome = true := by cases hb : d.body <;> simp_all
+  simp only [h2, h1', h2', Bool.and_self, Bool.true_and]
   cases h3 : pathChain (d :: anc) with
-  | error m => exact Or.inl ⟨_, fun l => rfl⟩
+  | error m => exact Or.inl ⟨rfl, _, fun l => rfl⟩
   | ok path =>
     simp only []
     cases h4 : checkedParams d path with
-    | error e => exact Or.inl ⟨_, fun l => rfl⟩
+    | error e => exact Or.inl ⟨rfl, _, fun l => rfl⟩
     | ok v =>
       simp only []
       cases anc with
-      | nil => exact Or.inl ⟨_, fun l => rfl⟩
+      | nil => exact Or.inl ⟨rfl, _, fun l => rfl⟩
       | cons p rest =>
-        refine Or.inr ⟨p, rest, rfl, fun l => ?_⟩
-        simp only [beq_iff_eq, Bool.false_eq_true, if_false]
-
-/-! ### one run: where the state can come from -/
-
-theorem From.refl (S : List Nat) (l : Option Nat) : From S l l := Or.inl rfl
-
-theorem From.mono {S S' : List Nat} {l r : Option Nat} (h : From S l r) (hs : ∀ j ∈ S, j ∈ S') : From S' l r := by
-  rcases h with h | ⟨j, h, hj⟩
-  · exact Or.inl h
-  · exact Or.inr ⟨j, h, hs j hj⟩
-
-theorem From.trans {S : List Nat} {l m r : Option Nat} (h1 : From S l m) (h2 : From S m r) : From S l r := by
-  rcases h2 with h2 | h2
-  · rw [h2]; exact h1
-  · exact Or.inr h2
-
-theorem Fresh.mono {S S' : List Nat} {l : Option Nat} (h : Fresh S' l) (hs : ∀ j ∈ S, j ∈ S') : Fresh S l :=
-  fun j hj hm => h j hj (hs j hm)
-
-theorem Fresh.none (S : List Nat) : Fresh S none := fun _ h => by cases h
-
-/-- a state that comes from `S` or is fresh for `T`, with `S`, `T` disjoint, is fresh for `T` -/
-theorem Fresh.of_from {S T : List Nat} {l r : Option Nat} (h : From S l r) (hl : Fresh T l)
-    (hd : ∀ j ∈ S, j ∉ T) : Fresh T r := by
-  rcases h with h | ⟨j, h, hj⟩
-  · rw [h]; exact hl
-  · intro i hi
-    rw [h] at hi
-    cases hi
-    exact hd j hj
+        refine Or.inr ⟨rfl, p, rest, rfl, fun l => ?_⟩
+        simp only [List.contains_eq_mem, decide_eq_true_eq, Bool.not_true, Bool.false_eq_true, if_false]
 
 mutual
-  theorem pathsTree_from : ∀ (t : BTree) (anc : List BDir) (l r : Option Nat),
-      pathsTree anc t l = .ok r → From (hid anc ++ idsT t) l r
-    | .node d kids, anc, l, r, h => by
+  /-- the Path stage accepts a tree from the state `l` iff every Path directive passes its own checks and the
+  parents of the Path directives are pairwise different and not in `l`; it then leaves these parents in front of `l` -/
+  theorem pathsTree_spec : ∀ (t : BTree) (anc : List BDir) (l r : List Nat),
+      pathsTree anc t l = .ok r ↔ (okT anc t = true ∧ Fresh (parT anc t) l ∧ r = parT anc t ++ l)
+    | .node d kids, anc, l, r => by
       by_cases hm : d.kind = .Macro
-      · rw [pathsTree_macro anc d kids l hm] at h
-        cases h; exact From.refl _ _
+      · rw [pathsTree_macro anc d kids l hm]
+        simp only [okT, parT, hm, beq_self_eq_true, if_true, List.nil_append, true_and]
+        exact ⟨fun h => (by cases h; exact ⟨Fresh.nil _, rfl⟩), fun h => (by rw [h.2])⟩
+      have hm' : (d.kind == Kind.Macro) = false := by simpa using hm
       by_cases hp : d.kind = .Path
-      · rcases pathsTree_path anc d kids hp with ⟨e, he⟩ | ⟨p, rest, rfl, hq⟩
-        · rw [he] at h; cases h
-        · rw [hq] at h
-          split at h
-          · cases h
-          · have := pathsForest_from kids (d :: p :: rest) (some p.id) r h
-            refine Or.inr ?_
-            rcases this with h' | ⟨j, h', hj⟩
-            · exact ⟨p.id, h', by simp [hid]⟩
-            · refine ⟨j, h', ?_⟩
-              simp only [hid, idsT, List.mem_append, List.mem_cons] at hj ⊢
-              rcases hj with hj | hj
-              · exact Or.inr (Or.inl (by simpa using hj))
-              · exact Or.inr (Or.inr hj)
-      · rw [pathsTree_other anc d kids l hm hp] at h
-        refine (pathsForest_from kids (d :: anc) l r h).mono ?_
-        intro j hj
-        simp only [hid, idsT, List.mem_append, List.mem_cons] at hj ⊢
-        exact Or.inr (by simpa using hj)
-  theorem pathsForest_from : ∀ (f : List BTree) (anc : List BDir) (l r : Option Nat),
-      pathsForest anc f l = .ok r → From (hid anc ++ idsF f) l r
-    | [], anc, l, r, h => by
-      rw [pathsForest_nil] at h
-      cases h; exact From.refl _ _
-    | t :: f, anc, l, r, h => by
-      rw [pathsForest_cons] at h
+      · have hp' : (d.kind == Kind.Path) = true := by simpa using hp
+        simp only [okT, parT, hm', hp', Bool.false_eq_true, if_false, if_true]
+        rcases pathsTree_path anc d kids hp with ⟨ho, e, he⟩ | ⟨ho, p, rest, rfl, hq⟩
+        · rw [he, ho]
+          exact ⟨fun h => (by cases h), fun h => (by simp at h)⟩
+        · rw [hq, ho, Bool.true_and]
+          by_cases hin : p.id ∈ l
+          · rw [if_pos hin]
+            refine ⟨fun h => (by cases h), fun h => ?_⟩
+            exact absurd hin ((fresh_append.1 h.2.1).1.2 p.id (by simp [hid]))
+          · rw [if_neg hin, pathsForest_spec kids (d :: p :: rest) (p.id :: l) r]
+            simp only [hid, fresh_append, fresh_single, List.singleton_append, List.append_assoc]
+            exact ⟨fun ⟨a, b, c⟩ => ⟨a, ⟨hin, b⟩, c⟩, fun ⟨a, ⟨_, b⟩, c⟩ => ⟨a, b, c⟩⟩
+      · have hp' : (d.kind == Kind.Path) = false := by simpa using hp
+        rw [pathsTree_other anc d kids l hm hp, pathsForest_spec kids (d :: anc) l r]
+        simp only [okT, parT, hm', hp', Bool.false_eq_true, if_false]
+  theorem pathsForest_spec : ∀ (f : List BTree) (anc : List BDir) (l r : List Nat),
+      pathsForest anc f l = .ok r ↔ (okF anc f = true ∧ Fresh (parF anc f) l ∧ r = parF anc f ++ l)
+    | [], anc, l, r => by
+      rw [pathsForest_nil]
+      simp only [okF, parF, List.nil_append, true_and]
+      exact ⟨fun h => (by cases h; exact ⟨Fresh.nil _, rfl⟩), fun h => (by rw [h.2])⟩
+    | t :: f, anc, l, r => by
+      rw [pathsForest_cons]
+      simp only [okF, parF, Bool.and_eq_true, fresh_append, List.append_assoc]
       cases ht : pathsTree anc t l with
-      | error e => rw [ht] at h; cases h
+      | error e =>
+        refine ⟨fun h => (by cases h), fun h => ?_⟩
+        rw [(pathsTree_spec t anc l _).2 ⟨h.1.1, h.2.1.1, rfl⟩] at ht
+        cases ht
       | ok m =>
-        rw [ht, ok_bind] at h
-        have h1 := pathsTree_from t anc l m ht
-        have h2 := pathsForest_from f anc m r h
-        refine From.trans (h1.mono ?_) (h2.mono ?_) <;>
-        · intro j hj
-          simp only [idsF, List.mem_append] at hj ⊢
-          rcases hj with hj | hj
-          · exact Or.inl hj
-          · first | exact Or.inr (Or.inl hj) | exact Or.inr (Or.inr hj)
+        obtain ⟨h1, h2, rfl⟩ := (pathsTree_spec t anc l m).1 ht
+        rw [ok_bind, pathsForest_spec f anc (parT anc t ++ l) r]
+        exact ⟨fun ⟨a, b, c⟩ => ⟨⟨h1, a⟩, ⟨h2, b⟩, c⟩, fun ⟨⟨_, a⟩, ⟨_, b⟩, c⟩ => ⟨a, b, c⟩⟩
 end
 
-/-! ### two runs from states that are no identity of the tree -/
+/-- the verdict of the Path stage -/
+theorem pathsForest_isOk (f : List BTree) (anc : List BDir) (l : List Nat) :
+    (pathsForest anc f l).isOk = true ↔ (okF anc f = true ∧ Fresh (parF anc f) l) := by
+  cases h : pathsForest anc f l with
+  | error e =>
+    refine ⟨fun h' => (by cases h'), fun h' => ?_⟩
+    rw [(pathsForest_spec f anc l _).2 ⟨h'.1, h'.2, rfl⟩] at h
+    cases h
+  | ok r =>
+    have := (pathsForest_spec f anc l r).1 h
+    exact ⟨fun _ => ⟨this.1, this.2.1⟩, fun _ => rfl⟩
 
-theorem Agree.same (l l' : Option Nat) (x : R (Option Nat)) : Agree l l' x x := by
-  cases x with
-  | error e => exact Or.inl ⟨e, e, rfl, rfl⟩
-  | ok r => exact Or.inr ⟨r, r, rfl, rfl, Or.inr rfl⟩
+theorem okF_append (anc : List BDir) (l r : List BTree) : okF anc (l ++ r) = (okF anc l && okF anc r) := by
+  induction l with
+  | nil => simp [okF]
+  | cons t l ih => simp only [List.cons_append, okF, ih, Bool.and_assoc]
 
-theorem Agree.isOk {l l' : Option Nat} {x y : R (Option Nat)} (h : Agree l l' x y) : x.isOk = y.isOk := by
-  rcases h with ⟨e, e', rfl, rfl⟩ | ⟨r, r', rfl, rfl, _⟩ <;> rfl
+theorem parF_append (anc : List BDir) (l r : List BTree) : parF anc (l ++ r) = parF anc r ++ parF anc l := by
+  induction l with
+  | nil => simp [parF]
+  | cons t l ih => simp only [List.cons_append, parF, ih, List.append_assoc]
 
-mutual
-  theorem pathsTree_agree : ∀ (t : BTree) (anc : List BDir) (l l' : Option Nat),
-      Fresh (hid anc ++ idsT t) l → Fresh (hid anc ++ idsT t) l' →
-      Agree l l' (pathsTree anc t l) (pathsTree anc t l')
-    | .node d kids, anc, l, l', hl, hl' => by
-      by_cases hm : d.kind = .Macro
-      · rw [pathsTree_macro anc d kids l hm, pathsTree_macro anc d kids l' hm]
-        exact Or.inr ⟨l, l', rfl, rfl, Or.inl ⟨rfl, rfl⟩⟩
-      by_cases hp : d.kind = .Path
-      · rcases pathsTree_path anc d kids hp with ⟨e, he⟩ | ⟨p, rest, rfl, hq⟩
-        · rw [he, he]; exact Or.inl ⟨e, e, rfl, rfl⟩
-        · have n1 : l ≠ some p.id := fun h => hl p.id h (by simp [hid])
-          have n2 : l' ≠ some p.id := fun h => hl' p.id h (by simp [hid])
-          rw [hq, hq, if_neg n1, if_neg n2]
-          exact Agree.same _ _ _
-      · rw [pathsTree_other anc d kids l hm hp, pathsTree_other anc d kids l' hm hp]
-        have sub : ∀ j ∈ hid (d :: anc) ++ idsF kids, j ∈ hid anc ++ idsT (.node d kids) := by
-          intro j hj
-          simp only [hid, idsT, List.mem_append, List.mem_cons] at hj ⊢
-          exact Or.inr (by simpa using hj)
-        exact pathsForest_agree kids (d :: anc) l l' (hl.mono sub) (hl'.mono sub)
-  theorem pathsForest_agree : ∀ (f : List BTree) (anc : List BDir) (l l' : Option Nat),
-      Fresh (hid anc ++ idsF f) l → Fresh (hid anc ++ idsF f) l' →
-      Agree l l' (pathsForest anc f l) (pathsForest anc f l')
-    | [], anc, l, l', _, _ => by
-      rw [pathsForest_nil, pathsForest_nil]
-      exact Or.inr ⟨l, l', rfl, rfl, Or.inl ⟨rfl, rfl⟩⟩
-    | t :: f, anc, l, l', hl, hl' => by
-      have sub1 : ∀ j ∈ hid anc ++ idsT t, j ∈ hid anc ++ idsF (t :: f) := by
-        intro j hj
-        simp only [idsF, List.mem_append] at hj ⊢
-        rcases hj with hj | hj
-        · exact Or.inl hj
-        · exact Or.inr (Or.inl hj)
-      have sub2 : ∀ j ∈ hid anc ++ idsF f, j ∈ hid anc ++ idsF (t :: f) := by
-        intro j hj
-        simp only [idsF, List.mem_append] at hj ⊢
-        rcases hj with hj | hj
-        · exact Or.inl hj
-        · exact Or.inr (Or.inr hj)
-      rw [pathsForest_cons, pathsForest_cons]
-      rcases pathsTree_agree t anc l l' (hl.mono sub1) (hl'.mono sub1) with ⟨e, e', h1, h2⟩ | ⟨r, r', h1, h2, h3⟩
-      · rw [h1, h2]; exact Or.inl ⟨e, e', rfl, rfl⟩
-      · rw [h1, h2, ok_bind, ok_bind]
-        rcases h3 with ⟨rfl, rfl⟩ | rfl
-        · exact pathsForest_agree f anc r r' (hl.mono sub2) (hl'.mono sub2)
-        · rcases Agree.same l l' (pathsForest anc f r) with h | ⟨q, q', h, h', _⟩
-          · exact Or.inl h
-          · rw [h] at h'
-            cases h'
-            exact Or.inr ⟨q, q, h, h, Or.inr rfl⟩
-end
+/-- the Path stage is order-free: from any state, at any depth, two neighbouring trees may be exchanged -/
+theorem paths_swap_from (anc : List BDir) (pre post : List BTree) (a b : BTree) (l : List Nat) :
+    (pathsForest anc (pre ++ a :: b :: post) l).isOk = (pathsForest anc (pre ++ b :: a :: post) l).isOk := by
+  rw [Bool.eq_iff_iff, pathsForest_isOk, pathsForest_isOk]
+  have hok : okF anc (pre ++ a :: b :: post) = okF anc (pre ++ b :: a :: post) := by
+    simp only [okF_append, okF]
+    cases okF anc pre <;> cases okT anc a <;> cases okT anc b <;> rfl
+  have hperm : (parF anc (pre ++ a :: b :: post)).Perm (parF anc (pre ++ b :: a :: post)) := by
+    simp only [parF_append, parF, List.append_assoc]
+    refine List.Perm.append_left _ ?_
+    rw [← List.append_assoc, ← List.append_assoc (parT anc a)]
+    exact List.Perm.append_right _ List.perm_append_comm
+  rw [hok, Fresh.perm hperm]
 
-/-! ### the top level -/
+/-- (1) the Path stage gives the same verdict in both orders — for ARBITRARY trees `a`, `b`, whatever their
+identities (F76: the stage refuses a forest iff a Path directive fails its own checks or two Path directives outside
+the MACRO subtrees have parents of one identity; neither depends on the order) -/
+theorem paths_swap (pre post : List BTree) (a b : BTree) :
+    (pathsForest [] (pre ++ a :: b :: post) []).isOk = (pathsForest [] (pre ++ b :: a :: post) []).isOk :=
+  paths_swap_from [] pre post a b []
 
-theorem pathsTree_from0 {t : BTree} {l r : Option Nat} (h : pathsTree [] t l = .ok r) : From (idsT t) l r := by
-  simpa [hid] using pathsTree_from t [] l r h
-
-theorem pathsForest_from0 {f : List BTree} {l r : Option Nat} (h : pathsForest [] f l = .ok r) :
-    From (idsF f) l r := by
-  simpa [hid] using pathsForest_from f [] l r h
-
-theorem pathsTree_agree0 (t : BTree) (l l' : Option Nat) (hl : Fresh (idsT t) l) (hl' : Fresh (idsT t) l') :
-    Agree l l' (pathsTree [] t l) (pathsTree [] t l') :=
-  pathsTree_agree t [] l l' (by simpa [hid] using hl) (by simpa [hid] using hl')
-
-theorem pathsForest_agree0 (f : List BTree) (l l' : Option Nat) (hl : Fresh (idsF f) l) (hl' : Fresh (idsF f) l') :
-    Agree l l' (pathsForest [] f l) (pathsForest [] f l') :=
-  pathsForest_agree f [] l l' (by simpa [hid] using hl) (by simpa [hid] using hl')
-
-/-- two neighbouring top-level blocks with disjoint identities, walked from a state that is no identity of the two
-blocks nor of what follows them -/
-theorem two_blocks (a b : BTree) (post : List BTree) (l : Option Nat)
-    (hla : Fresh (idsT a) l) (hlb : Fresh (idsT b) l) (hlp : Fresh (idsF post) l)
-    (dab : ∀ j ∈ idsT a, j ∉ idsT b) (dap : ∀ j ∈ idsT a, j ∉ idsF post) (dbp : ∀ j ∈ idsT b, j ∉ idsF post) :
-    (pathsForest [] (a :: b :: post) l).isOk = (pathsForest [] (b :: a :: post) l).isOk := by
-  have dba : ∀ j ∈ idsT b, j ∉ idsT a := fun j hb ha => dab j ha hb
-  rw [pathsForest_cons [] a (b :: post) l, pathsForest_cons [] b (a :: post) l]
-  cases ha : pathsTree [] a l with
-  | error ea =>
-    rw [error_bind]
-    cases hb : pathsTree [] b l with
-    | error eb => rfl
-    | ok rb =>
-      rw [ok_bind, pathsForest_cons]
-      have frb : Fresh (idsT a) rb := Fresh.of_from (pathsTree_from0 hb) hla dba
-      rcases pathsTree_agree0 a l rb hla frb with ⟨e, e', _, h2⟩ | ⟨r, r', h1, _⟩
-      · rw [h2]; rfl
-      · rw [ha] at h1; cases h1
-  | ok ra =>
-    have fra_b : Fresh (idsT b) ra := Fresh.of_from (pathsTree_from0 ha) hlb dab
-    have fra_p : Fresh (idsF post) ra := Fresh.of_from (pathsTree_from0 ha) hlp dap
-    rw [ok_bind, pathsForest_cons [] b post ra]
-    rcases pathsTree_agree0 b l ra hlb fra_b with ⟨e, e', h1, h2⟩ | ⟨rb, rb', h1, h2, _⟩
-    · rw [h1, h2]; rfl
-    · rw [h1, h2, ok_bind, ok_bind, pathsForest_cons [] a post rb]
-      have frb_a : Fresh (idsT a) rb := Fresh.of_from (pathsTree_from0 h1) hla dba
-      have frb_p : Fresh (idsF post) rb := Fresh.of_from (pathsTree_from0 h1) hlp dbp
-      rcases pathsTree_agree0 a l rb hla frb_a with ⟨e, e', h3, _⟩ | ⟨x, ra2, h3, h4, _⟩
-      · rw [ha] at h3; cases h3
-      · rw [h4, ok_bind]
-        have f1 : Fresh (idsF post) rb' := Fresh.of_from (pathsTree_from0 h2) fra_p dbp
-        have f2 : Fresh (idsF post) ra2 := Fresh.of_from (pathsTree_from0 h4) frb_p dap
-        exact (pathsForest_agree0 post rb' ra2 f1 f2).isOk
-
-/-- (1) with pairwise distinct identities the Path stage accepts `pre ++ a :: b :: post` iff it accepts
-`pre ++ b :: a :: post` -/
+/-- (1, as first stated: with pairwise distinct identities) the Path stage accepts `pre ++ a :: b :: post` iff it
+accepts `pre ++ b :: a :: post`.  Restated for F76 (the initial state is `[]`, it was `none`); the hypothesis `hd` is
+no longer needed (`paths_swap`) and is kept for the users of this name -/
 theorem paths_swap_distinct (pre post : List BTree) (a b : BTree)
-    (hd : (idsF (pre ++ a :: b :: post)).Nodup) :
-    (pathsForest [] (pre ++ a :: b :: post) none).isOk = (pathsForest [] (pre ++ b :: a :: post) none).isOk := by
-  have hids : idsF (pre ++ a :: b :: post) = idsF pre ++ (idsT a ++ (idsT b ++ idsF post)) := by
-    rw [idsF_append]; simp only [idsF]
-  rw [hids, List.nodup_append, List.nodup_append, List.nodup_append] at hd
-  obtain ⟨_, ⟨_, ⟨_, _, dbp⟩, dabp⟩, dpre⟩ := hd
-  rw [pathsForest_append, pathsForest_append]
-  cases h0 : pathsForest [] pre none with
-  | error e => rfl
-  | ok l0 =>
-    rw [ok_bind, ok_bind]
-    have fr : ∀ S : List Nat, (∀ j ∈ idsF pre, j ∉ S) → Fresh S l0 :=
-      fun S hS => Fresh.of_from (pathsForest_from0 h0) (Fresh.none S) hS
-    refine two_blocks a b post l0 (fr _ ?_) (fr _ ?_) (fr _ ?_) ?_ ?_ ?_
-    · intro j hj hja; exact dpre j hj j (by simp [hja]) rfl
-    · intro j hj hjb; exact dpre j hj j (by simp [hjb]) rfl
-    · intro j hj hjp; exact dpre j hj j (by simp [hjp]) rfl
-    · intro j hj hjb; exact dabp j hj j (by simp [hjb]) rfl
-    · intro j hj hjp; exact dabp j hj j (by simp [hjp]) rfl
-    · intro j hj hjp; exact dbp j hj j hjp rfl
+    (_hd : (idsF (pre ++ a :: b :: post)).Nodup) :
+    (pathsForest [] (pre ++ a :: b :: post) []).isOk = (pathsForest [] (pre ++ b :: a :: post) []).isOk :=
+  paths_swap pre post a b
 
 /-! ### (2) the exchange of two interaction blocks without the hypothesis on the Path stage -/
+
+/-- the verdict: two neighbouring interaction blocks in either order — `C10I.swap_inter_verdict_partial'` without
+`hpaths` (F76: `paths_swap` holds for every forest) -/
+theorem swap_inter_verdict' (banned : List Kind) (pre post : List BTree) (a b : BTree)
+    (ha : C10I.isInterBlock' a = true) (hb : C10I.isInterBlock' b = true) (hpre : pre ≠ []) :
+    (compile banned (pre ++ a :: b :: post)).isOk = (compile banned (pre ++ b :: a :: post)).isOk :=
+  C10I.swap_inter_verdict_partial' banned pre post a b ha hb hpre (paths_swap pre post a b)
+
+/-- the catalog: `C10I.swap_inter_partial'` without `hpaths` -/
+theorem swap_inter' (banned : List Kind) (pre post : List BTree) (a b : BTree)
+    (ha : C10I.isInterBlock' a = true) (hb : C10I.isInterBlock' b = true) (hpre : pre ≠ [])
+    (c : Cat) (hc : compile banned (pre ++ a :: b :: post) = .ok c) :
+    ∃ c', compile banned (pre ++ b :: a :: post) = .ok c' ∧ C10I.SameUpToOrder' c c' :=
+  C10I.swap_inter_partial' banned pre post a b ha hb hpre (paths_swap pre post a b) c hc
 
 /-- the verdict: two neighbouring interaction blocks of a forest with pairwise distinct identities, in either order -/
 theorem swap_inter_verdict_distinct (banned : List Kind) (pre post : List BTree) (a b : BTree)
@@ -435,7 +400,116 @@ theorem swap_inter_decoF (banned : List Kind) (fs : PFS) (done : List RDir) (f :
 
 end deco
 
-/-! ### (4) the statements are not vacuous -/
+/-! ### (4) one context, one Path directive (F76) -/
+
+mutual
+  /-- the subtrees of a tree that the Path stage walks: all but the MACRO subtrees -/
+  def nodesT : BTree → List BTree
+    | .node d kids => if d.kind == .Macro then [] else .node d kids :: nodesF kids
+  def nodesF : List BTree → List BTree
+    | [] => []
+    | t :: r => nodesT t ++ nodesF r
+end
+
+mutual
+  theorem parT_sub : ∀ (t : BTree) (anc : List BDir) (p : BDir) (kids : List BTree),
+      .node p kids ∈ nodesT t → ∃ anc', (parF (p :: anc') kids).Sublist (parT anc t)
+    | .node d ks, anc, p, kids, h => by
+      by_cases hm : (d.kind == Kind.Macro) = true
+      · simp [nodesT, hm] at h
+      have hm' : (d.kind == Kind.Macro) = false := by simpa using hm
+      simp only [nodesT, hm', Bool.false_eq_true, if_false, List.mem_cons] at h
+      have top : (parF (d :: anc) ks).Sublist (parT anc (.node d ks)) := by
+        simp only [parT, hm', Bool.false_eq_true, if_false]
+        split
+        · exact List.sublist_append_left _ _
+        · exact List.Sublist.refl _
+      rcases h with h | h
+      · cases h
+        exact ⟨anc, top⟩
+      · obtain ⟨anc', h'⟩ := parF_sub ks (d :: anc) p kids h
+        exact ⟨anc', h'.trans top⟩
+  theorem parF_sub : ∀ (f : List BTree) (anc : List BDir) (p : BDir) (kids : List BTree),
+      .node p kids ∈ nodesF f → ∃ anc', (parF (p :: anc') kids).Sublist (parF anc f)
+    | [], anc, p, kids, h => by simp [nodesF] at h
+    | t :: f, anc, p, kids, h => by
+      simp only [nodesF, List.mem_append] at h
+      simp only [parF]
+      rcases h with h | h
+      · obtain ⟨anc', h'⟩ := parT_sub t anc p kids h
+        exact ⟨anc', h'.trans (List.sublist_append_right _ _)⟩
+      · obtain ⟨anc', h'⟩ := parF_sub f anc p kids h
+        exact ⟨anc', h'.trans (List.sublist_append_left _ _)⟩
+end
+
+/-- a Path child puts the identity of its parent into the list of parents -/
+theorem parT_path (p : BDir) (anc : List BDir) (t : BTree) (ht : t.dir.kind = .Path) : p.id ∈ parT (p :: anc) t := by
+  cases t with
+  | node d ks =>
+    simp only [BTree.dir] at ht
+    simp [parT, ht, hid]
+
+theorem parF_path (p : BDir) (anc : List BDir) (f : List BTree) (t : BTree) (hm : t ∈ f) (ht : t.dir.kind = .Path) :
+    p.id ∈ parF (p :: anc) f := by
+  induction f with
+  | nil => cases hm
+  | cons x f ih =>
+    simp only [parF, List.mem_append]
+    rcases List.mem_cons.1 hm with rfl | hm
+    · exact Or.inr (parT_path p anc t ht)
+    · exact Or.inl (ih hm)
+
+/-- (4) F76, one context has one Path directive: a directive `p` outside the MACRO subtrees with two Path children
+`t₁`, `t₂` — whatever stands before, between and after them, and wherever `p` is in the forest — is refused by the
+Path stage (it used to be accepted when a Path directive of another context, e.g. of a nested method, stood between
+the two) -/
+theorem two_paths_refused (f : List BTree) (p : BDir) (l₁ l₂ l₃ : List BTree) (t₁ t₂ : BTree)
+    (hp : .node p (l₁ ++ t₁ :: (l₂ ++ t₂ :: l₃)) ∈ nodesF f)
+    (h₁ : t₁.dir.kind = .Path) (h₂ : t₂.dir.kind = .Path) :
+    (pathsForest [] f []).isOk = false := by
+  cases hok : (pathsForest [] f []).isOk with
+  | false => rfl
+  | true =>
+    exfalso
+    have hn : (parF [] f).Nodup := ((pathsForest_isOk f [] []).1 hok).2.1
+    obtain ⟨anc', hs⟩ := parF_sub f [] p _ hp
+    have hn' := hs.nodup hn
+    rw [parF_append, parF, List.nodup_append] at hn'
+    have hn'' := hn'.1
+    rw [List.nodup_append] at hn''
+    exact hn''.2.2 p.id (parF_path p anc' _ t₂ (by simp) h₂) p.id (parT_path p anc' t₁ h₁) rfl
+
+theorem compile_paths_ok {banned : List Kind} {f : List BTree} {c : Cat} (h : compile banned f = .ok c) :
+    (pathsForest [] f []).isOk = true := by
+  rw [compile_eq] at h
+  cases h0 : collectTags f {} with
+  | error e => rw [h0] at h; cases h
+  | ok c0 =>
+    rw [h0, ok_bind] at h
+    cases h1 : checkTypeNames f with
+    | error e => rw [h1] at h; cases h
+    | ok u =>
+      rw [h1, ok_bind] at h
+      cases h2 : pathsForest [] f [] with
+      | error e => rw [h2] at h; cases h
+      | ok x => rfl
+
+/-- … hence no catalog is built -/
+theorem two_paths_not_compiled (banned : List Kind) (f : List BTree) (p : BDir) (l₁ l₂ l₃ : List BTree)
+    (t₁ t₂ : BTree) (hp : .node p (l₁ ++ t₁ :: (l₂ ++ t₂ :: l₃)) ∈ nodesF f)
+    (h₁ : t₁.dir.kind = .Path) (h₂ : t₂.dir.kind = .Path) (c : Cat) :
+    compile banned f ≠ .ok c := by
+  intro h
+  have := compile_paths_ok h
+  rw [two_paths_refused f p l₁ l₂ l₃ t₁ t₂ hp h₁ h₂] at this
+  cases this
+
+/-- the general form: the Path stage accepts a forest only if the parents of its Path directives (outside the MACRO
+subtrees) have pairwise different identities -/
+theorem accepted_parents_nodup (f : List BTree) (h : (pathsForest [] f []).isOk = true) : (parF [] f).Nodup :=
+  ((pathsForest_isOk f [] []).1 h).2.1
+
+/-! ### (5) the statements are not vacuous -/
 
 private def s (x : String) : Bytes := x.toUTF8.toList
 private def J : BTree := .node { kind := .Jsight, id := 1, src := 1, named := [("Version", s "0.3")] } []
@@ -443,16 +517,20 @@ private def pathDir (id : Nat) : BTree := .node { kind := .Path, id := id, src :
 /-- two method blocks with a Path directive each, every directive with its own identity -/
 private def M5 : BTree := .node { kind := .Get, id := 70, src := 5, named := [("Path", s "/p/{a}")] } [pathDir 71]
 private def M6 : BTree := .node { kind := .Get, id := 72, src := 6, named := [("Path", s "/q/{a}")] } [pathDir 73]
-/-- a third method block with the IDENTITY of the first (the counterexample `C10I.path_stage_order_matters`) -/
+/-- a third method block with the IDENTITY of the first -/
 private def M5' : BTree := .node { kind := .Get, id := 70, src := 5, named := [("Path", s "/r/{a}")] } [pathDir 75]
 private def M7 : BTree := .node { kind := .Get, id := 74, src := 7, named := [("Path", s "/r/{a}")] } [pathDir 75]
 
+private def okIs (r : R (List Nat)) (l : List Nat) : Bool := match r with | .ok x => x == l | .error _ => false
+private def errIs (r : R (List Nat)) (e : BErr) : Bool := match r with | .error x => x == e | .ok _ => false
+
 /-- distinct identities, two interaction blocks with Path directives, accepted in both orders — and the Path
-directives are really walked (each block sets the state: the walk ends in the identity of the last block) -/
+directives are really walked (each block adds its identity to the state) -/
 example : (idsF ([J] ++ M5 :: M6 :: [M7])).Nodup ∧ idsF [J, M5, M6, M7] = [1, 70, 71, 72, 73, 74, 75] ∧
     C10I.isInterBlock' M5 = true ∧ C10I.isInterBlock' M6 = true ∧
     C10I.noPathTree M5 = false ∧ C10I.noPathTree M6 = false ∧
-    pathsForest [] [J, M5, M6] none = .ok (some 72) ∧ pathsForest [] [J, M6, M5] none = .ok (some 70) ∧
+    okIs (pathsForest [] [J, M5, M6] []) [72, 70] = true ∧ okIs (pathsForest [] [J, M6, M5] []) [70, 72] = true ∧
+    parF [] [J, M5, M6] = [72, 70] ∧ okF [] [J, M5, M6] = true ∧
     (compile [] [J, M5, M6, M7]).isOk = true ∧ (compile [] [J, M6, M5, M7]).isOk = true := by decide +kernel
 
 /-- the same by the theorem -/
@@ -462,14 +540,34 @@ example : ∃ c c', compile [] [J, M5, M6, M7] = .ok c ∧ compile [] [J, M6, M5
   cases hc : compile [] [J, M5, M6, M7] with
   | error e => rw [hc] at h; cases h
   | ok c =>
-    obtain ⟨c', h', hs⟩ := swap_inter_distinct [] [J] [M7] M5 M6 (by decide +kernel) (by decide +kernel)
-      (by simp) (by decide +kernel) c hc
+    obtain ⟨c', h', hs⟩ := swap_inter' [] [J] [M7] M5 M6 (by decide +kernel) (by decide +kernel) (by simp) c hc
     exact ⟨c, c', rfl, h', hs⟩
 
-/-- the shape of the counterexample (two directives with one identity) does not meet `Nodup`, and there the two
-orders do differ -/
+/-- two directives with one identity (the shape of the former counterexample `C10I.path_stage_order_matters`): `Nodup`
+fails, and since F76 both orders are rejected — at the same directive -/
 example : ¬ (idsF ([J, M5] ++ M6 :: M5' :: [])).Nodup ∧ ¬ (idsF ([J, M5] ++ M5' :: M6 :: [])).Nodup ∧
-    (pathsForest [] ([J, M5] ++ M6 :: M5' :: []) none).isOk = true ∧
-    (pathsForest [] ([J, M5] ++ M5' :: M6 :: []) none).isOk = false := by decide +kernel
+    errIs (pathsForest [] ([J, M5] ++ M6 :: M5' :: []) []) ⟨75, .notUnique⟩ = true ∧
+    errIs (pathsForest [] ([J, M5] ++ M5' :: M6 :: []) []) ⟨75, .notUnique⟩ = true := by decide +kernel
+
+private def resp (id : Nat) : BTree :=
+  .node { kind := .HTTPResponseCode, id := id, src := id, keyword := s "200", body := some (s "any") } []
+/-- `URL /a/{x}/{y}/{z}` with `Path {x}`, `GET` (with `Path {y}` and `200 any`), and — when `second` — `Path {z}` -/
+private def U (second : Bool) : BTree :=
+  .node { kind := .URL, id := 10, src := 10, named := [("Path", s "/a/{x}/{y}/{z}")] }
+    ([pathDir 11, .node { kind := .Get, id := 12, src := 12 } [pathDir 13, resp 14]] ++
+      if second then [pathDir 15] else [])
+
+/-- F76: the second Path directive of the URL is refused although the Path directive of the nested GET stands
+between the two (before the repair the stage remembered the parent 12 of the Path directive 13 only, and accepted);
+without the second directive the document is accepted -/
+example : errIs (pathsForest [] [J, U true] []) ⟨15, .notUnique⟩ = true ∧
+    C10B.errIs (compile [] [J, U true]) ⟨15, .notUnique⟩ = true ∧
+    okIs (pathsForest [] [J, U false] []) [12, 10] = true ∧ (compile [] [J, U false]).isOk = true := by decide +kernel
+
+/-- the same refusal by the theorem -/
+example : (pathsForest [] [J, U true] []).isOk = false :=
+  two_paths_refused [J, U true] { kind := .URL, id := 10, src := 10, named := [("Path", s "/a/{x}/{y}/{z}")] } []
+    [.node { kind := .Get, id := 12, src := 12 } [pathDir 13, resp 14]] []
+    (pathDir 11) (pathDir 15) (by simp [nodesF, nodesT, U, J]) rfl rfl
 
 end JSight.C10P
